@@ -253,6 +253,8 @@ def names_oracle(lines, answers):
             locs[sid] = []
             new, is_pkg = name, True
         elif w[1] == "req":
+            while stack[-1] != int(w[2]):       # scopes popped by the history are dead
+                locs.pop(stack.pop())
             new, is_pkg = ans, w[4] == "1"
         else:
             continue
@@ -324,20 +326,20 @@ def prog_manyvars(rng, n):
     L.append("\t%s := seed%%97 + 1" % names[0])
     for i in range(1, n):
         j = rng.randrange(i)
-        L.append("\t%s := (%s*3 + %s + %d) %% 100003" % (names[i], names[i - 1], names[j], i))
+        L.append("\t%s := (%s*3 + %s + %d) & 0xFFFF" % (names[i], names[i - 1], names[j], i))
         if i % 97 == 50:
             k = rng.randrange(i)
-            L.append("\tinc%d := func(d int) int { t := %s + d; %s = t %% 1000; u := t - -d; return u %% 100003 }" % (i, names[k], names[k]))
-            L.append("\t%s = (%s + inc%d(%d)) %% 100003" % (names[i], names[i], i, i))
+            L.append("\tinc%d := func(d int) int { t := %s + d; %s = t %% 1000; u := t - -d; return u & 0xFFFF }" % (i, names[k], names[k]))
+            L.append("\t%s = (%s + inc%d(%d)) & 0xFFFF" % (names[i], names[i], i, i))
         if i % 113 == 7:
             k = rng.randrange(i)
             L.append("\t{")
             L.append("\t\t%s := %s + %d" % (names[k], names[k], i))
-            L.append("\t\t%s = (%s + %s) %% 100003" % (names[i], names[i], names[k]))
+            L.append("\t\t%s = (%s + %s) & 0xFFFF" % (names[i], names[i], names[k]))
             L.append("\t}")
     L.append("\tsum := 0")
     for i in range(n):
-        L.append("\tsum = (sum*31 + %s) %% 1000003" % names[i])
+        L.append("\tsum = (sum*31 + %s) & 0xFFFFF" % names[i])
     L.append("\treturn sum")
     L.append("}")
     L.append("")
@@ -360,21 +362,21 @@ def prog_manypkg(rng, n):
         elif k == "const":
             L.append("const %s = %d" % (nm, rng.randrange(1000)))
         elif k == "func":
-            L.append("func %s(x int) int { y := x + %d; return y %% 100003 }" % (nm, i))
+            L.append("func %s(x int) int { y := x + %d; return y & 0xFFFF }" % (nm, i))
         else:
             L.append("type %s struct{ x int }" % nm)
-            L.append("func (r %s) get(y int) int { return (r.x + y) %% 100003 }" % nm)
+            L.append("func (r %s) get(y int) int { return (r.x + y) & 0xFFFF }" % nm)
     L.append("")
     L.append("func main() {")
     L.append("\tsum := 0")
     for i, nm in enumerate(names):
         k = kinds[i]
         if k in ("var", "const"):
-            L.append("\tsum = (sum*31 + %s) %% 1000003" % nm)
+            L.append("\tsum = (sum*31 + %s) & 0xFFFFF" % nm)
         elif k == "func":
-            L.append("\tsum = (sum*31 + %s(sum)) %% 1000003" % nm)
+            L.append("\tsum = (sum*31 + %s(sum)) & 0xFFFFF" % nm)
         else:
-            L.append("\tsum = (sum*31 + %s{x: %d}.get(sum)) %% 1000003" % (nm, i))
+            L.append("\tsum = (sum*31 + %s{x: %d}.get(sum)) & 0xFFFFF" % (nm, i))
     L.append("\tprintln(sum)")
     for i, nm in enumerate(names):
         if kinds[i] == "var" and rng.random() < 0.1:
@@ -385,7 +387,7 @@ def prog_manypkg(rng, n):
 
 
 STR_SPICE = ['"', "\\", "/*", "*/", "//", "- -", "  ", "\t", "/* x */", "'", "`", "+ +", "\n", "a", "b", "$", " ", "-", "--",
-             "é", "€", "·", "\\\"", "\\n", "*", "/", "\x08", "function", "var  x", "{ }", ";", "<star>/"]
+             "\\\"", "\\n", "*", "/", "\x08", "function", "var  x", "{ }", ";", "<star>/"]
 
 
 def rand_gostr(rng):
@@ -592,14 +594,14 @@ def gen_programs(rng, tier):
     def add(kind, src):
         jobs.append({"id": "%s%d" % (kind, len(jobs)), "files": {"main.go": src}, "variants": ["plain", "minify"], "native": True,
                      "timeout": 30, "kind": kind})
-    sizes = [30, 60, 730] if tier == "quick" else [5, 27, 30, 60, 120, 703, 730, 800, 1500]
+    sizes = [30, 730] if tier == "quick" else [5, 27, 30, 60, 120, 703, 730, 800, 1500]
     for n in sizes:
         add("manyvars", prog_manyvars(rng, n))
-    for n in ([40, 720] if tier == "quick" else [10, 27, 40, 100, 703, 720, 900]):
+    for n in ([720] if tier == "quick" else [10, 27, 40, 100, 703, 720, 900]):
         add("manypkg", prog_manypkg(rng, n))
-    for _ in range(3 if tier == "quick" else 20):
+    for _ in range(2 if tier == "quick" else 20):
         add("strings", prog_strings(rng, rng.choice([8, 16, 30])))
-    for _ in range(3 if tier == "quick" else 20):
+    for _ in range(2 if tier == "quick" else 20):
         add("minus", prog_minus(rng))
     for e in (["exit", "panic", "nilmap", "index"] if tier == "quick" else ["exit", "panic", "nilmap", "index"] * 5):
         add("closures-" + e, prog_closures(rng, e))
@@ -609,6 +611,20 @@ def gen_programs(rng, tier):
 # --------------------------------------------------------------------------------------
 # the run
 # --------------------------------------------------------------------------------------
+
+def run_programs(jobs):
+    """compile + run; a run that hit the wall-clock limit (loaded machine) is repeated alone with a longer limit"""
+    clean = [{k: v for k, v in j.items() if k != "kind"} for j in jobs]
+    results = progs.run_jobs(clean)
+    for attempt in range(2):
+        redo = [i for i, r in enumerate(results) if any(v.get("class") == "timeout" for v in r["runs"].values())]
+        if not redo:
+            break
+        again = progs.run_jobs([dict(clean[i], timeout=120 * (attempt + 1)) for i in redo], par=3)
+        for i, r in zip(redo, again):
+            results[i] = r
+    return results
+
 
 def wf_fields(ans):
     return dict(x.split("=") for x in ans.split() if "=" in x)
@@ -679,7 +695,11 @@ def run(tier, seed):
     jobs = gen_programs(rng, tier)
     jobs.append({"id": "witness-console", "files": {"main.go": WITNESS_CONSOLE}, "variants": ["plain", "minify"], "native": True,
                  "kind": "witness"})
-    results = progs.run_jobs([{k: v for k, v in j.items() if k != "kind"} for j in jobs])
+    import time
+    t_phase = time.time()
+    phases = {}
+    results = run_programs(jobs)
+    phases["programs"] = round(time.time() - t_phase, 1)
     pv_native = 0
     for j, r in zip(jobs, results):
         runs = r["runs"]
@@ -718,10 +738,12 @@ def run(tier, seed):
             if d.get("err"):
                 raise RuntimeError("gvh_c16 decls: %s: %s" % (d["id"], d["err"][:500]))
             codes += [bytes.fromhex(c) for c in d["codes"]]
+    phases["decls"] = round(time.time() - t_phase - sum(phases.values()), 1)
     chk.extra["real_decl_code_fields"] = len(codes)
     chk.extra["real_decl_code_bytes"] = sum(len(c) for c in codes)
     indom = check_rw(chk, "removeWhitespace-real-code", codes, True, "real")
     chk.extra["real_decl_code_in_theorem_domain"] = indom
+    phases["rw-real"] = round(time.time() - t_phase - sum(phases.values()), 1)
 
     nsoup = 6000 if tier == "thorough" else 900
     soups = [gen_soup(rng, rng.choice([3, 6, 12, 30, 80])) for _ in range(nsoup)]
@@ -733,6 +755,7 @@ def run(tier, seed):
     ops = ["rw ns %d" % c for c in range(256)] + ["rw id " + hx(s) for s in soups[:50]]
     chk.compare("needsSpace", ops, C.run_gvh_lines(["ops"], ops, name="gvh_c16"), C.run_driver("C16", ops), kind=lambda o, a: "needsSpace/identity")
 
+    phases["rw-generated"] = round(time.time() - t_phase - sum(phases.values()), 1)
     # ---- (b) names ------------------------------------------------------------------------------------------
     ops = ["nm kw"]
     for s in ["x", "café", "a.b", "T·m", "v 1", "$ptr", "a%b", "·", "Â·", "x-y~z_", "世界", "a+b", ""]:
@@ -765,6 +788,9 @@ def run(tier, seed):
         for o, a in zip(nm_ops[lo:hi], impl[lo:hi]):
             if o.startswith("nm locals") and a != "-":
                 maxscope = max(maxscope, a.count(",") + 1)
+    phases["names"] = round(time.time() - t_phase - sum(phases.values()), 1)
+    chk.extra["phase_wall_s"] = phases
+    C.log("[C16] phases: %s" % phases)
     chk.extra["max_names_in_one_scope"] = maxscope
     chk.extra["name_scripts"] = len(scripts)
     chk.extra["exhaustive"] = False
